@@ -177,7 +177,11 @@ func (p *Program) buildFuncUnit(fn *ssa.Function) (ur *UnitResult) {
 		for _, rv := range r.vals {
 			g.addNamed(rv)
 		}
-		env.at = nil
+		// postconditions may mention local variables as they are at this return
+		env.at = r.blk
+		if r.blk != nil {
+			env.atIdx = len(r.blk.Instrs)
+		}
 		for _, en := range f.contract.Ensures {
 			g.beginGoal()
 			o := g.oblige("ensures", r.reach, env.evalBool(en.E), f.pos(r.pos), "postcondition of "+fn.Name())
